@@ -2014,6 +2014,62 @@ def gen_cases(rng, nprog):
     return cases
 
 
+# --------------------------------------------------------------- literals of special magnitude
+# The literal 0 (any spelling) is dimension-polymorphic; EVERY other literal is a plain scalar, however small
+# or large it is: subnormal f64 values, the smallest normal number, values that print in scientific notation,
+# huge finite values.  (Literals that overflow to inf or underflow to 0 in f64 are avoided: the model reads
+# literals as exact decimals.)
+SPECIAL_NONZERO = ["5e-324", "1e-310", "2e-315", "2.2250738585072014e-308", "1e-300", "1e-7", "0.000001", "1e-5",
+                   "1e15", "1.5e20", "1e300", "1.7e308", "123456789012", "2", "0.5"]
+ZERO_SPELLINGS = ["0", "0.0", "0.000", "0e5", "0e-7"]
+LIT_UNITS = [("m", "Length"), ("s", "Time"), ("kg", "Mass"), ("J", "Energy"), ("Hz", "Frequency")]
+
+
+def gen_literal_cases(rng, n, start=0):
+    """a literal L in every position where the polymorphic-zero rule decides: operand of a sum, of a comparison,
+    value of an annotated definition, argument for a dimensionful parameter, branch of a conditional, list
+    element — next to a quantity of a non-scalar dimension.  Accepted iff L is exactly zero."""
+    cases = []
+    for k in range(n):
+        zero = rng.random() < 0.3
+        lit = rng.choice(ZERO_SPELLINGS if zero else SPECIAL_NONZERO)
+        L = num(lit)
+        if rng.random() < 0.25:
+            L = ("un", "neg", L)
+        u, dname = rng.choice(LIT_UNITS)
+        q = bn("*", num(rng.choice(LITS)), ("unit", u))
+        i = start + k
+        shape = rng.choice(["sum", "sum", "cmp", "ann", "arg", "garg", "branch", "list", "scalar"])
+        if shape == "sum":
+            e = rng.choice([bn("+", L, q), bn("+", q, L), bn("-", q, L), bn("-", L, q)])
+            stmts = [("let", "vl%d" % i, None, e)] if rng.random() < 0.5 else [("expr", e)]
+        elif shape == "cmp":
+            o = rng.choice(["<", ">", "<=", ">=", "==", "!="])
+            stmts = [("expr", bn(o, L, q) if rng.random() < 0.5 else bn(o, q, L))]
+        elif shape == "ann":
+            stmts = [("let", "vl%d" % i, ("dim", ("name", dname)), L)]
+        elif shape == "arg":
+            f = "fl%d" % i
+            stmts = [("fn", f, [], [("pa0", ("dim", ("name", dname)))], None, [], bn("*", num("2"), ("id", "pa0"))),
+                     ("expr", ("call", f, [L]))]
+        elif shape == "garg":
+            f = "fl%d" % i
+            stmts = [("fn", f, [("X", True)], [("pa0", ("dim", ("name", "X"))), ("pa1", ("dim", ("name", "X")))], None, [],
+                      bn("+", ("id", "pa0"), ("id", "pa1"))),
+                     ("expr", ("call", f, [q, L] if rng.random() < 0.5 else [L, q]))]
+        elif shape == "branch":
+            c = rng.choice([("bool", True), bn(">", q, q)])
+            stmts = [("expr", ("if", c, q, L) if rng.random() < 0.5 else ("if", c, L, q))]
+        elif shape == "list":
+            stmts = [("expr", ("list", [q, L] if rng.random() < 0.5 else [L, q, q]))]
+        else:   # control: in a scalar context every literal is fine
+            stmts = [("expr", bn("+", L, num(rng.choice(LITS))))]
+            zero = True
+        cases.append(dict(inputs=[stmts], kind="literal", why="literal %s as %s next to %s" % (lit, shape, dname),
+                          expect=["accept" if zero else "reject"]))
+    return cases
+
+
 # --------------------------------------------------------------- malformed stream
 SOUP = (["m", "s", "kg", "N", "J", "Hz", "km", "h", "pi", "c", "2", "3", "0.5", "0", "1", "va0", "fa0", "pa0",
          "+", "-", "*", "/", "^", "->", "<", ">", "==", "=", "(", ")", "(", ")", "[", "]", ",", ":", "let", "fn",
